@@ -227,6 +227,13 @@ def runCase (c : S) : List String := Id.run do
           let r1 : RR := { hr.r with d := { hr.r.d with store := hr.r.d.store.set (a.getD 1 (.atom "")).str (value (a.getD 2 (.atom ""))) } }
           let (str, r2) := stateStr r1
           st := { st with runners := update st.runners j { hr with r := r2 }, out := st.out.push ("HSET" ++ str) }
+      | "hclear" =>
+        match lookup st.runners j with
+        | none => st := { st with out := st.out.push "NORUNNER" }
+        | some hr =>
+          let r1 : RR := { hr.r with d := { hr.r.d with store := [] } }
+          let (str, r2) := stateStr r1
+          st := { st with runners := update st.runners j { hr with r := r2 }, out := st.out.push ("HSET" ++ str) }
       | "hrev" =>
         match lookup st.runners j with
         | none => st := { st with out := st.out.push "NORUNNER" }
